@@ -75,6 +75,10 @@ def families(draw):
             ws = [str(int(w) * k) for w in ws]
         elif k == 10 and all("." not in w for w in ws):
             ws = ["%d.%d" % (int(w) // 10, int(w) % 10) for w in ws]
+        if draw(st.integers(0, 3)) == 0:
+            # column-aligned spelling: integer parts zero-padded to one width (09 / 91 -> 010 / 090); still decimal numbers
+            width = max(len(w.split(".")[0]) for w in ws) + draw(st.integers(0, 1))
+            ws = [w.split(".")[0].rjust(width, "0") + ("." + w.split(".")[1] if "." in w else "") for w in ws]
         scaled.append(ws)
     fam = scaled
     units = draw(st.lists(st.one_of(st.integers(0, 10 ** 6),
